@@ -23,6 +23,12 @@ Proof. vm_compute. reflexivity. Qed.
    lengths (Impl.v: write_at / move_at / set_len arguments) were read from them *)
 Theorem C01_source_mem_sites : mem_sites = expected_mem_sites.
 Proof. vm_compute. reflexivity. Qed.
+(* and the control skeleton: every `if` / `else if` / `while` / `match` of the hand-modelled functions has the same condition
+   or scrutinee, and every loop and early `return` is where it was (local names abstracted; debug_assert!s and the
+   verification hooks ignored) — a new special case, threshold or early exit in a modelled function is not covered by the
+   hand-written model *)
+Theorem C01_source_branches : branches = expected_branches.
+Proof. vm_compute. reflexivity. Qed.
 
 (* one step: well-formedness is preserved, nothing undefined is reached, statics are untouched, other slots are
    untouched, and unless the step reports an allocation failure the texts and the returned value are Spec's *)
@@ -73,6 +79,7 @@ Print Assumptions C01_gen_ok.
 Print Assumptions C01_source_skeleton.
 Print Assumptions C01_source_wrappers.
 Print Assumptions C01_source_mem_sites.
+Print Assumptions C01_source_branches.
 Print Assumptions C01_step.
 Print Assumptions C01_histories.
 Print Assumptions C01_read.
